@@ -89,6 +89,8 @@ type G struct {
 	name   string
 	depth  int
 	stack  []*ssa.Function
+	panicking *goPanic // the panic being unwound (deferred calls are running)
+	recovered bool
 }
 
 type Machine struct {
@@ -163,6 +165,7 @@ type Machine struct {
 	mapOrderRev  bool
 	idN          int
 	extTypeTab   map[string]types.Type
+	onceDone     map[*Value]bool
 	merge        *mergeScope // innermost merge scope (merge.go)
 	Merged       int
 	NoMerge      bool
@@ -1199,7 +1202,7 @@ func (m *Machine) mutexLock(p *Value) {
 	}
 	m.maybePreempt()
 	for {
-		st := (*p).(Struct)
+		st := lockWord(p)
 		if st[0].(int64) == 0 {
 			st[0] = int64(1)
 			if m.race != nil {
@@ -1209,6 +1212,19 @@ func (m *Machine) mutexLock(p *Value) {
 		}
 		m.mutexW[p] = append(m.mutexW[p], m.cur)
 		m.park("mutex")
+	}
+}
+
+// lockWord: the struct whose first field holds the lock state (sync.Mutex itself, or the
+// writer mutex embedded first in a sync.RWMutex).
+func lockWord(p *Value) Struct {
+	st := (*p).(Struct)
+	for {
+		inner, ok := st[0].(Struct)
+		if !ok {
+			return st
+		}
+		st = inner
 	}
 }
 
@@ -1226,7 +1242,7 @@ func (m *Machine) mutexUnlock(p *Value) {
 		m.SyncTrace = append(m.SyncTrace, "U:"+m.mutexName(p))
 		return
 	}
-	st := (*p).(Struct)
+	st := lockWord(p)
 	if st[0].(int64) == 0 {
 		panic(goPanic{msg: "sync: unlock of unlocked mutex"})
 	}
